@@ -115,6 +115,7 @@ func (t *TreeOut) checkJournal() {
 	sh := map[shadowKey]*shadow{}
 	var keys []shadowKey
 	registered := map[shadowKey]string{}
+	unmodelled := map[shadowKey]bool{}
 	for _, o := range t.Journal {
 		if o.tx >= len(t.Env.EVMs) || t.H.Faulted[o.seq] || !o.offset.IsUint64() || o.offset.Uint64() > 31 {
 			continue
@@ -129,6 +130,9 @@ func (t *TreeOut) checkJournal() {
 			}
 		case 0xe6, 0xe7:
 			if !o.model {
+				// a journal whose recorded bytes the shadow does not model (packed field, long
+				// string): the whole key is left to C09's domain, its lists are not compared
+				unmodelled[k] = true
 				continue
 			}
 			a := t.H.JournalAt[o.seq]
@@ -150,6 +154,9 @@ func (t *TreeOut) checkJournal() {
 		}
 	}
 	for _, k := range keys {
+		if unmodelled[k] {
+			continue
+		}
 		s := sh[k]
 		off := uint256.NewInt(uint64(k.offset))
 		slot := k.slot
